@@ -132,6 +132,17 @@ pub fn crash_points(base: &Base, rng: &mut Rng) -> Vec<FaultCase> {
             for n in ns {
                 let mut ops = base.ops.clone();
                 ops[t].fuse = Some((k, n));
+                // "with further faults allowed": now and then a second crash later in the same history
+                // (the callback counts of the fault-free base are only a guide there; a fuse that does
+                // not fire is simply a fault-free op)
+                if rng.chance(1, 8) && t + 1 < base.ops.len() {
+                    let u = t + 1 + rng.usize_below(base.ops.len() - t - 1);
+                    let cands: Vec<FuseKind> = ALL_FUSES.iter().copied().filter(|f| base.counts[u].0[f.idx()] > 0).collect();
+                    if !cands.is_empty() && ops[u].fuse.is_none() {
+                        let f = *rng.pick(&cands);
+                        ops[u].fuse = Some((f, rng.below(base.counts[u].0[f.idx()].min(3) as u64) as u32));
+                    }
+                }
                 cases.push(FaultCase { ops, at: t, kind: k.name() });
             }
         }
